@@ -20,6 +20,7 @@ import (
 
 	"verif/bitsim"
 	"verif/mpcl"
+	"verif/mpclgen"
 	. "verif/refsem"
 	"verif/runner"
 	"verif/valpha"
@@ -141,22 +142,22 @@ func inputValues(t Type, quick bool) []*big.Int {
 	return a
 }
 
-func runGenerated(ctx *runner.Ctx, g gen) {
-	src := g.p.Src()
+func runGenerated(ctx *runner.Ctx, g mpclgen.Gen) {
+	src := g.P.Src()
 	cp := compileSrc(src)
 	if cp.pan {
 		ctx.Eval(1)
-		ctx.Outcome("compiler-panic(recorded)/" + g.fam)
-		ctx.Note("compiler panic (" + g.fam + "): " + firstLine(cp.err) + " :: " + oneLine(src))
+		ctx.Outcome("compiler-panic(recorded)/" + g.Fam)
+		ctx.Note("compiler panic (" + g.Fam + "): " + firstLine(cp.err) + " :: " + oneLine(src))
 		return
 	}
 	if cp.err != "" {
 		ctx.Eval(1)
-		ctx.Outcome("shape-rejected-by-compiler/" + g.fam)
-		ctx.Note("rejected shape (" + g.fam + "): " + firstLine(cp.err) + " :: " + oneLine(src))
+		ctx.Outcome("shape-rejected-by-compiler/" + g.Fam)
+		ctx.Note("rejected shape (" + g.Fam + "): " + firstLine(cp.err) + " :: " + oneLine(src))
 		return
 	}
-	m := g.p.Main()
+	m := g.P.Main()
 	var alph [][]*big.Int
 	for _, pa := range m.Params {
 		alph = append(alph, inputValues(pa.T, ctx.Quick()))
@@ -170,12 +171,12 @@ func runGenerated(ctx *runner.Ctx, g gen) {
 		}
 		if i == len(in) {
 			var args []Value
-			k := cs{Fam: g.fam, Src: src}
+			k := cs{Fam: g.Fam, Src: src}
 			for j, pa := range m.Params {
 				args = append(args, Unflatten(pa.T, in[j]))
 				k.Inputs = append(k.Inputs, in[j].String())
 			}
-			res, err := g.p.Run(args)
+			res, err := g.P.Run(args)
 			if err != nil {
 				panic("reference interpreter: " + err.Error() + " :: " + oneLine(src))
 			}
@@ -194,7 +195,7 @@ func runGenerated(ctx *runner.Ctx, g gen) {
 	rec(0)
 	if ok {
 		ctx.Nontrivial(src)
-		ctx.Outcome("agrees/" + g.fam)
+		ctx.Outcome("agrees/" + g.Fam)
 	}
 }
 
@@ -332,71 +333,21 @@ func runTestFile(ctx *runner.Ctx, file string) {
 	}
 }
 
-func typesFor(quick bool) []Type {
-	ws := []int{1, 2, 3, 4, 7, 8, 9, 16, 31, 32, 33, 64, 65, 128}
-	if !quick {
-		ws = []int{1, 2, 3, 4, 5, 7, 8, 9, 15, 16, 17, 31, 32, 33, 63, 64, 65, 127, 128, 129, 130}
-	}
-	var ts []Type
-	for _, w := range ws {
-		ts = append(ts, Uint(w))
-		if w > 1 {
-			ts = append(ts, Int(w))
-		}
-	}
-	return ts
-}
-
 func work(ctx *runner.Ctx) {
 	mpcl.Quiet()
 	quick := ctx.Quick()
 	idx := 0
-	emit := func(g gen) {
+	emit := func(g mpclgen.Gen) {
 		idx++
 		if !ctx.Mine(idx) || ctx.Expired() {
 			return
 		}
 		runGenerated(ctx, g)
 		if idx%3001 == 0 {
-			ctx.Sample(map[string]string{"family": g.fam, "program": g.p.Src()})
+			ctx.Sample(map[string]string{"family": g.Fam, "program": g.P.Src()})
 		}
 	}
-	for _, t := range typesFor(quick) {
-		famExpr(t, emit)
-	}
-	// casts: same signedness widening/narrowing, same width reinterpretation
-	cw := []int{1, 3, 4, 8, 9, 16, 32, 33, 64, 65}
-	for _, signed := range []bool{false, true} {
-		for _, w1 := range cw {
-			for _, w2 := range cw {
-				if w1 == w2 || (signed && (w1 == 1 || w2 == 1)) {
-					continue
-				}
-				if quick && (w1 > 16 && w2 > 16) && (w1+w2)%3 != 0 {
-					continue
-				}
-				famCast(Type{Signed: signed, W: w1}, Type{Signed: signed, W: w2}, emit)
-			}
-		}
-	}
-	for _, w := range []int{4, 8, 33, 64, 65} {
-		famCast(Uint(w), Int(w), emit)
-		famCast(Int(w), Uint(w), emit)
-	}
-	stmtTypes := []Type{Uint(3), Int(3), Uint(8)}
-	if !quick {
-		stmtTypes = []Type{Uint(2), Uint(3), Int(3), Uint(4), Int(4), Uint(8), Int(8), Uint(33), Int(65)}
-	}
-	for _, t := range stmtTypes {
-		famIf(t, emit)
-		famLoop(t, emit)
-		famArray(t, emit)
-		famCall(t, emit)
-		famGlobals(t, emit)
-	}
-	for _, tu := range [][2]Type{{Uint(3), Uint(5)}, {Int(4), Int(2)}, {Uint(8), Uint(3)}} {
-		famStruct(tu[0], tu[1], emit)
-	}
+	mpclgen.All(quick, emit)
 	// @Test vectors
 	var files []string
 	filepath.WalkDir("/repo/testsuite", func(path string, d fs.DirEntry, err error) error {
@@ -442,7 +393,7 @@ func main() {
 	runner.Main(runner.Spec{
 		ID:    "C03",
 		Level: "exploration",
-		Rule: "programs are enumerated family by family from a typed AST (harness/refsem) that prints MPCL source and interprets it under the pinned semantics: (expr) every binary operator x operand shapes {var, const, nested once} x comparisons, boolean combinations, constant shifts, division/modulo with a non-zero divisor, for uintW/intW at 14 (thorough 21) widths 1..130; (cast) widening/narrowing of the same signedness and same-width reinterpretation between 10 widths; (if-else) every combination of 8 then-bodies x 9 else-bodies (assignment, shadowing :=, early return, nested if, nothing) x 3 conditions x 3 follow-up statements; (loop) 0..4 iterations x 7 bodies incl. early return and loop-variable shifts; (array) constant / loop / masked dynamic indices, copies, array arguments; (struct) field updates, copies, struct arguments; (call) helpers with 1..3 results and aliased arguments; (globals) package-level var/const read and shadowed by a local or an argument around an if. Inputs: all when a program has <= 12 input bits, else the cross product of the boundary alphabet. Oracle: Circuit.Compute == reference interpreter per declared output. Plus every @Test vector of every program under testsuite/, run as testsuite_test.go runs them. " +
+		Rule: "programs are enumerated family by family from a typed AST (harness/refsem) that prints MPCL source and interprets it under the pinned semantics: (expr) every binary operator x operand shapes {var, const, nested once} x comparisons, boolean combinations, constant shifts, division/modulo with a non-zero divisor, for uintW/intW at 14 (thorough 21) widths 1..130; (cast) widening/narrowing of the same signedness and same-width reinterpretation between 10 widths; (if-else) every combination of 8 then-bodies x 9 else-bodies (assignment, shadowing :=, early return, nested if, nothing) x 3 conditions x 3 follow-up statements; (if-nest) 4 shapes of two or three sequential/nested ifs x every choice of their conditions among {bool argument c, bool argument d, bool local p, a==b, !c} (so one condition value guards several ifs) x branches assigning one or two variables; (loop) 0..4 iterations x 7 bodies incl. early return and loop-variable shifts; (array) constant / loop / masked dynamic indices, copies, array arguments; (struct) field updates, copies, struct arguments; (call) helpers with 1..3 results and aliased arguments; (globals) package-level var/const read and shadowed by a local or an argument around an if. Inputs: all when a program has <= 12 input bits, else the cross product of the boundary alphabet. Oracle: Circuit.Compute == reference interpreter per declared output. Plus every @Test vector of every program under testsuite/, run as testsuite_test.go runs them. " +
 			"distinct_nontrivial = programs whose every vector agreed + @Test vectors that hold",
 		Assumptions: []string{
 			"the reference interpreter is the specification of the subset; each of its rules names the documentation or test program that pins it (listed in the evidence notes)",
